@@ -225,9 +225,15 @@ def gen_matrix(rng, table, n_triples):
         i_fresh = base + pick_delta(rng, table, tr)
         off = rng.choice(OTHER_OFFSETS)
         reps = [["nl"], ["au"], ["ao", off]]
+        nreps = reps
+        if rng.random() < 0.4:
+            # the naive-local readings of the two stores come from REAL file stores (files whose mtime is set to the instant;
+            # whole seconds, so that the float round trip of os.path.getmtime is exact)
+            i_up, i_down, i_fresh = (x // M * M for x in (i_up, i_down, i_fresh))
+            nreps = [["file"], ["au"], ["ao", off]]
         for rf in reps:
-            for ru in reps:
-                for rd in reps:
+            for ru in nreps:
+                for rd in nreps:
                     out.append({"fresh": {"i": i_fresh, "rep": rf},
                                 "nodes": [{"preds": [], "kind": "n", "t": {"i": i_up, "rep": ru}},
                                           {"preds": [0], "kind": "n", "t": {"i": i_down, "rep": rd}}]})
